@@ -21,6 +21,7 @@ import (
 	"github.com/pkg/errors"
 
 	"seata.apache.org/seata-go/pkg/datasource/sql/undo"
+	"seata.apache.org/seata-go/pkg/util/log"
 )
 
 // ATTx
@@ -55,15 +56,18 @@ func (tx *ATTx) Rollback() error {
 func (tx *ATTx) commitOnAT() error {
 	originTx := tx.tx
 	if err := originTx.register(originTx.tranCtx); err != nil {
+		tx.rollbackOnCommitFailure()
 		return err
 	}
 
 	undoLogMgr, err := undo.GetUndoLogManager(originTx.tranCtx.DBType)
 	if err != nil {
+		tx.rollbackOnCommitFailure()
 		return err
 	}
 
 	if err = undoLogMgr.FlushUndoLog(originTx.tranCtx, originTx.conn.targetConn); err != nil {
+		tx.rollbackOnCommitFailure()
 		if rerr := originTx.report(false); rerr != nil {
 			return errors.WithStack(rerr)
 		}
@@ -79,4 +83,13 @@ func (tx *ATTx) commitOnAT() error {
 
 	originTx.report(true)
 	return nil
+}
+
+// rollbackOnCommitFailure ends the local transaction when phase one fails before the local commit.
+// database/sql does not call Rollback after a failed Commit, so without it the pooled connection
+// would be handed back inside an open transaction.
+func (tx *ATTx) rollbackOnCommitFailure() {
+	if err := tx.tx.Rollback(); err != nil {
+		log.Errorf("rollback local transaction after failed commit, err: %v", err)
+	}
 }
